@@ -1,8 +1,10 @@
 package main
 
 import (
+	"fmt"
 	"go/token"
 	"go/types"
+	"strings"
 
 	"golang.org/x/tools/go/ssa"
 )
@@ -256,5 +258,104 @@ func checkTasksSaved(w *World, r *Report) {
 	}
 	if n == 0 {
 		r.Undecided("tables.tasks-saved", "save mapper", "-", "no store into PersistedJob.Tasks found")
+	}
+}
+
+// times.clock (C15): created ≤ start ≤ end rests on where the three job timestamps come from — the clock, read at the moment of
+// the transition, or the same-named field of the stored job after a restart. A timestamp computed from anything else (task
+// times, a zero value, another field) has no reason to be ordered with the other two.
+func checkJobTimesFromClock(w *World, r *Report) {
+	jobT := w.NamedType("", "PipelineJob")
+	if jobT == nil {
+		r.Undecided("times.clock", "job timestamps", "-", "type PipelineJob not found")
+		return
+	}
+	isNow := func(v ssa.Value) bool {
+		for d := 0; d < 6; d++ {
+			c, ok := w.Resolve(v).(*ssa.Call)
+			if !ok {
+				return false
+			}
+			name := calleeName(&c.Call)
+			if name == "time.Now" {
+				return true
+			}
+			// a method of time.Time that keeps the instant (rounding for the API, zone changes) on a value that comes from the clock
+			if strings.HasPrefix(name, "time.(Time).") && len(c.Call.Args) >= 1 {
+				switch strings.TrimPrefix(name, "time.(Time).") {
+				case "Round", "Truncate", "UTC", "Local", "In":
+					v = c.Call.Args[0]
+					continue
+				}
+			}
+			return false
+		}
+		return false
+	}
+	fromStore := func(v ssa.Value, field string) bool {
+		ap := w.AP(v)
+		return strings.HasSuffix(ap, "."+field) && !strings.Contains(ap, ".Tasks")
+	}
+	var okVal func(v ssa.Value, field string, d int) bool
+	okVal = func(v ssa.Value, field string, d int) bool {
+		v = w.Resolve(v)
+		if d > 4 {
+			return false
+		}
+		if isNow(v) {
+			return true
+		}
+		switch x := v.(type) {
+		case *ssa.Alloc:
+			// &local: every value stored into the local
+			n, ok := 0, true
+			if x.Referrers() != nil {
+				for _, ref := range *x.Referrers() {
+					if st, isSt := ref.(*ssa.Store); isSt && st.Addr == ssa.Value(x) {
+						n++
+						ok = ok && okVal(st.Val, field, d+1)
+					}
+				}
+			}
+			return ok && n > 0
+		case *ssa.UnOp, *ssa.Extract, *ssa.Parameter, *ssa.Field:
+			// the same-named field of another record (the stored job → the restored job; the job → its copy)
+			return fromStore(v, field)
+		}
+		return false
+	}
+	n := 0
+	for _, fn := range w.ModFuncs {
+		if fn.Pkg == nil || fn.Pkg != w.Pkg("") {
+			continue
+		}
+		allInstrs(fn, func(in ssa.Instruction) {
+			st, ok := in.(*ssa.Store)
+			if !ok {
+				return
+			}
+			fa, ok := st.Addr.(*ssa.FieldAddr)
+			if !ok {
+				return
+			}
+			nt := namedOf(fa.X.Type())
+			if nt == nil || nt.Obj() != jobT.Obj() {
+				return
+			}
+			f := fieldName(fa.X.Type(), fa.Field)
+			if f != "Created" && f != "Start" && f != "End" {
+				return
+			}
+			if k, isConst := st.Val.(*ssa.Const); isConst && k.IsNil() {
+				return // clearing a pointer is not a timestamp
+			}
+			n++
+			r.Check(okVal(st.Val, f, 0), "times.clock", FuncName(fn)+": "+f+" of a job", w.InstrPos(in),
+				f+" is the clock read at this transition, or the stored job's "+f,
+				f+" is set to "+w.AP(st.Val)+", which is neither time.Now() nor the same field of the stored job: nothing orders it with the job's other timestamps (created ≤ start ≤ end)")
+		})
+	}
+	if n < 3 {
+		r.Undecided("times.clock", "job timestamps", "-", fmt.Sprintf("only %d stores to Created/Start/End of a job found", n))
 	}
 }
